@@ -1,54 +1,107 @@
 /-
-  C08 helper lemmas, part 4: what one `add_cds` call does to the record's relations.
+  C08 helper lemmas, part 4: what one `add_cds` call does to the record's relations and caches.
 -/
 import ASV.Proofs.LookupSpec
 namespace ASV.Lookup
 open ASV
 
-/-! ### the collections an `add_cds` call reaches -/
+/-! ### the collections an `add_cds` call reaches, with the section each files the gene under -/
 
 mutual
-/-- the collection itself and, recursively, every child that contains the gene -/
-def downNodes (g : Gene) : AreaT → List AreaT
-  | .mk id kind loc core product kids => .mk id kind loc core product kids :: downKids g kids
-def downKids (g : Gene) : List AreaT → List AreaT
+/-- the collection itself and, recursively, every child that contains the gene; a child is handed the
+    section its parent chose -/
+def downNodes (g : Gene) (given : Option Section) : AreaT → List (AreaT × Section)
+  | .mk id kind loc core product kids =>
+    (.mk id kind loc core product kids, (chooseSection loc g given).getD .post)
+      :: downKids g (chooseSection loc g given) kids
+def downKids (g : Gene) (sec : Option Section) : List AreaT → List (AreaT × Section)
   | [] => []
-  | k :: ks => (if containedBy g.loc k.loc then downNodes g k else []) ++ downKids g ks
+  | k :: ks => (if containedBy g.loc k.loc then downNodes g sec k else []) ++ downKids g sec ks
 end
 
 /-- does `Protocluster.add_cds` record the gene as defining? -/
 def defines (g : Gene) (d : AreaT) : Bool :=
   d.kind == .proto && containedBy g.loc d.core && g.cores.contains d.product
 
-/-- `r'` is `r` after the pairs `(gene, collection)` in `P` have been entered -/
-structure Eff (P : List (Gene × AreaT)) (r r' : Rec) : Prop where
+/-- `r'` is `r` after the triples `(gene, collection, section)` in `P` have been entered into the gene lists
+    and those in `Q` into the definition sets / region back links: the relations grow by exactly those
+    entries, back links are put in front, the caches of the touched collections (and only those) are marked
+    dirty, everything else is untouched -/
+structure Eff2 (P Q : List (Gene × AreaT × Section)) (r r' : Rec) : Prop where
   len : r'.len = r.len
   genes : r'.genes = r.genes
+  byName : r'.byName = r.byName
+  byLoc : r'.byLoc = r.byLoc
+  cdsCache : r'.cdsCache = r.cdsCache
+  cdsCacheDirty : r'.cdsCacheDirty = r.cdsCacheDirty
   regions : r'.regions = r.regions
   protos : r'.protos = r.protos
   cands : r'.cands = r.cands
   subs : r'.subs = r.subs
-  members : ∀ x, x ∈ r'.members ↔ x ∈ r.members ∨ ∃ gd ∈ P, x = (gd.2.id, gd.1.id)
-  defs : ∀ x, x ∈ r'.defs ↔ x ∈ r.defs ∨ ∃ gd ∈ P, defines gd.1 gd.2 = true ∧ x = (gd.2.id, gd.1.id)
-  regionOf : ∀ x, x ∈ r'.regionOf ↔ x ∈ r.regionOf ∨ ∃ gd ∈ P, gd.2.kind = .region ∧ x = (gd.1.id, gd.2.id)
+  slotVal : r'.slotVal = r.slotVal
+  tupleVal : r'.tupleVal = r.tupleVal
+  log : r'.log = r.log
+  members : ∀ x, x ∈ r'.members ↔ x ∈ r.members ∨ ∃ t ∈ P, x = (t.2.1.id, t.1.id)
+  sections : ∀ x, x ∈ r'.sections ↔ x ∈ r.sections ∨ ∃ t ∈ P, x = ((t.2.1.id, t.2.2), t.1.id)
+  defs : ∀ x, x ∈ r'.defs ↔ x ∈ r.defs ∨ ∃ t ∈ Q, defines t.1 t.2.1 = true ∧ x = (t.2.1.id, t.1.id)
+  regionOf : ∃ pre, r'.regionOf = pre ++ r.regionOf ∧
+    ∀ x, x ∈ pre ↔ ∃ t ∈ Q, t.2.1.kind = .region ∧ x = (t.1.id, some t.2.1.id)
+  clean : ∀ aid, aid ∈ r'.clean ↔ aid ∈ r.clean ∧ ∀ t ∈ P, t.2.1.id ≠ aid
+  slotClean : ∀ x, x ∈ r'.slotClean ↔ x ∈ r.slotClean ∧ ∀ t ∈ P, (t.2.1.id, t.2.2) ≠ x
+  /-- lists of untouched collections keep their order too -/
+  childrenSame : ∀ aid, (∀ t ∈ P, t.2.1.id ≠ aid) → r'.children aid = r.children aid
+  sectionSame : ∀ aid s, (∀ t ∈ P, (t.2.1.id, t.2.2) ≠ (aid, s)) → r'.section aid s = r.section aid s
+
+abbrev Eff (P : List (Gene × AreaT × Section)) (r r' : Rec) : Prop := Eff2 P P r r'
 
 theorem Eff.refl (r : Rec) : Eff [] r r := by
   constructor <;> simp
 
-theorem Eff.trans {P Q : List (Gene × AreaT)} {r₁ r₂ r₃ : Rec} (h₁ : Eff P r₁ r₂) (h₂ : Eff Q r₂ r₃) :
-    Eff (P ++ Q) r₁ r₃ := by
+theorem Eff2.trans {P Q P' Q' : List (Gene × AreaT × Section)} {r₁ r₂ r₃ : Rec}
+    (h₁ : Eff2 P Q r₁ r₂) (h₂ : Eff2 P' Q' r₂ r₃) : Eff2 (P ++ P') (Q ++ Q') r₁ r₃ := by
   constructor
   · rw [h₂.len, h₁.len]
   · rw [h₂.genes, h₁.genes]
+  · rw [h₂.byName, h₁.byName]
+  · rw [h₂.byLoc, h₁.byLoc]
+  · rw [h₂.cdsCache, h₁.cdsCache]
+  · rw [h₂.cdsCacheDirty, h₁.cdsCacheDirty]
   · rw [h₂.regions, h₁.regions]
   · rw [h₂.protos, h₁.protos]
   · rw [h₂.cands, h₁.cands]
   · rw [h₂.subs, h₁.subs]
+  · rw [h₂.slotVal, h₁.slotVal]
+  · rw [h₂.tupleVal, h₁.tupleVal]
+  · rw [h₂.log, h₁.log]
   · intro x; rw [h₂.members, h₁.members]; simp only [List.mem_append]; grind
+  · intro x; rw [h₂.sections, h₁.sections]; simp only [List.mem_append]; grind
   · intro x; rw [h₂.defs, h₁.defs]; simp only [List.mem_append]; grind
-  · intro x; rw [h₂.regionOf, h₁.regionOf]; simp only [List.mem_append]; grind
+  · obtain ⟨p1, e1, c1⟩ := h₁.regionOf
+    obtain ⟨p2, e2, c2⟩ := h₂.regionOf
+    refine ⟨p2 ++ p1, by rw [e2, e1, List.append_assoc], ?_⟩
+    intro x; simp only [List.mem_append, c1, c2]; grind
+  · intro aid; rw [h₂.clean, h₁.clean]; simp only [List.mem_append]; grind
+  · intro x; rw [h₂.slotClean, h₁.slotClean]; simp only [List.mem_append]; grind
+  · intro aid h
+    rw [h₂.childrenSame aid (fun t ht => h t (List.mem_append.2 (Or.inr ht))),
+      h₁.childrenSame aid (fun t ht => h t (List.mem_append.2 (Or.inl ht)))]
+  · intro aid s h
+    rw [h₂.sectionSame aid s (fun t ht => h t (List.mem_append.2 (Or.inr ht))),
+      h₁.sectionSame aid s (fun t ht => h t (List.mem_append.2 (Or.inl ht)))]
 
-theorem mem_insertNew (l : List (Nat × Nat)) (y x : Nat × Nat) : x ∈ insertNew l y ↔ x ∈ l ∨ x = y := by
+theorem Eff.trans {P Q : List (Gene × AreaT × Section)} {r₁ r₂ r₃ : Rec} (h₁ : Eff P r₁ r₂) (h₂ : Eff Q r₂ r₃) :
+    Eff (P ++ Q) r₁ r₃ := Eff2.trans h₁ h₂
+
+/-- only membership in the second list matters -/
+theorem Eff2.congrQ {P Q Q' : List (Gene × AreaT × Section)} {r r' : Rec} (h : Eff2 P Q r r')
+    (hQ : ∀ x, x ∈ Q ↔ x ∈ Q') : Eff2 P Q' r r' :=
+  { h with
+    defs := fun x => by rw [h.defs]; simp only [hQ]
+    regionOf := by
+      obtain ⟨pre, e, c⟩ := h.regionOf
+      exact ⟨pre, e, fun x => by rw [c]; simp only [hQ]⟩ }
+
+theorem mem_insertNew {α} [BEq α] [LawfulBEq α] (l : List α) (y x : α) : x ∈ insertNew l y ↔ x ∈ l ∨ x = y := by
   unfold insertNew
   split
   · rename_i h
@@ -58,17 +111,12 @@ theorem mem_insertNew (l : List (Nat × Nat)) (y x : Nat × Nat) : x ∈ insertN
     · rintro (h | rfl) <;> assumption
   · simp
 
-theorem Eff.congr {P Q : List (Gene × AreaT)} {r r' : Rec} (h : Eff P r r') (hPQ : ∀ x, x ∈ P ↔ x ∈ Q) : Eff Q r r' := by
-  constructor
-  · exact h.len
-  · exact h.genes
-  · exact h.regions
-  · exact h.protos
-  · exact h.cands
-  · exact h.subs
-  · intro x; rw [h.members]; simp only [hPQ]
-  · intro x; rw [h.defs]; simp only [hPQ]
-  · intro x; rw [h.regionOf]; simp only [hPQ]
+theorem filter_insertNew_ne {α} [BEq α] [LawfulBEq α] (l : List α) (y : α) (p : α → Bool) (h : p y = false) :
+    (insertNew l y).filter p = l.filter p := by
+  unfold insertNew
+  split
+  · rfl
+  · simp [List.filter_append, h]
 
 /-- the subclass tail of `add_cds` (Protocluster / Region) applied to the state after the children -/
 def tail (g : Gene) (id : Nat) (kind : Kind) (core : Loc) (product : String) (r2 : Rec) : Rec :=
@@ -76,80 +124,118 @@ def tail (g : Gene) (id : Nat) (kind : Kind) (core : Loc) (product : String) (r2
   | .proto =>
     if containedBy g.loc core && g.cores.contains product
     then { r2 with defs := insertNew r2.defs (id, g.id) } else r2
-  | .region => { r2 with regionOf := (g.id, id) :: r2.regionOf }
+  | .region => { r2 with regionOf := (g.id, some id) :: r2.regionOf }
   | _ => r2
 
-theorem tail_spec (g : Gene) (id : Nat) (kind : Kind) (loc core : Loc) (product : String) (kids : List AreaT) (r2 : Rec) :
-    let r3 := tail g id kind core product r2
-    r3.len = r2.len ∧ r3.genes = r2.genes ∧ r3.regions = r2.regions ∧ r3.protos = r2.protos ∧ r3.cands = r2.cands
-    ∧ r3.subs = r2.subs ∧ r3.members = r2.members
-    ∧ (∀ x, x ∈ r3.defs ↔ x ∈ r2.defs ∨ (defines g (.mk id kind loc core product kids) = true ∧ x = (id, g.id)))
-    ∧ (∀ x, x ∈ r3.regionOf ↔ x ∈ r2.regionOf ∨ (kind = .region ∧ x = (g.id, id))) := by
+theorem tail_eff (g : Gene) (s : Section) (id : Nat) (kind : Kind) (loc core : Loc) (product : String)
+    (kids : List AreaT) (r2 : Rec) :
+    Eff2 [] [(g, AreaT.mk id kind loc core product kids, s)] r2 (tail g id kind core product r2) := by
   cases kind with
   | proto =>
     have hself : defines g (AreaT.mk id .proto loc core product kids)
         = (containedBy g.loc core && g.cores.contains product) := by
       simp [defines, AreaT.kind, AreaT.core, AreaT.product]
-    rw [hself]
     cases hdef : (containedBy g.loc core && g.cores.contains product)
     · simp only [tail, hdef, Bool.false_eq_true, if_false]
-      simp
+      have hd' : ¬(containedBy g.loc core = true ∧ product ∈ g.cores) := by simpa using hdef
+      constructor <;> simp [hself, AreaT.kind]
+      exact fun a b h1 h2 => absurd ⟨h1, h2⟩ hd'
     · simp only [tail, hdef, if_true]
-      simp [mem_insertNew]
-  | region => simp [tail, defines, AreaT.kind]; grind
-  | cand => simp [tail, defines, AreaT.kind]
-  | sub => simp [tail, defines, AreaT.kind]
+      have hd' : containedBy g.loc core = true ∧ product ∈ g.cores := by simpa using hdef
+      constructor <;> simp [hself, AreaT.kind, AreaT.id, mem_insertNew, Rec.children, Rec.section]
+      intro a b; simp [hd']
+  | region =>
+    simp only [tail]
+    constructor <;> simp [defines, AreaT.kind, AreaT.id, Rec.children, Rec.section]
+    exact ⟨[(g.id, some id)], rfl, by simp⟩
+  | cand => simp only [tail]; constructor <;> simp [defines, AreaT.kind]
+  | sub => simp only [tail]; constructor <;> simp [defines, AreaT.kind]
 
-theorem pushDown_unfold (g : Gene) (id : Nat) (kind : Kind) (loc core : Loc) (product : String) (kids : List AreaT) (r : Rec) :
-    pushDown g (.mk id kind loc core product kids) r
-      = tail g id kind core product (pushKids g kids { r with members := insertNew r.members (id, g.id) }) := by
+theorem pushDown_unfold (g : Gene) (given : Option Section) (id : Nat) (kind : Kind) (loc core : Loc) (product : String)
+    (kids : List AreaT) (r : Rec) :
+    pushDown g given (.mk id kind loc core product kids) r
+      = tail g id kind core product (pushKids g (chooseSection loc g given) kids
+          { r with members := insertNew r.members (id, g.id),
+                   sections := insertNew r.sections ((id, (chooseSection loc g given).getD .post), g.id),
+                   clean := r.clean.filter (· != id),
+                   slotClean := r.slotClean.filter (· != (id, (chooseSection loc g given).getD .post)) }) := by
   cases kind <;> simp [pushDown, tail]
 
-mutual
-theorem pushDown_eff (g : Gene) : ∀ (a : AreaT) (r : Rec), Eff ((downNodes g a).map fun d => (g, d)) r (pushDown g a r)
-  | .mk id kind loc core product kids, r => by
-    have hk := pushKids_eff g kids { r with members := insertNew r.members (id, g.id) }
-    rw [pushDown_unfold]
-    obtain ⟨t1, t2, t3, t4, t5, t6, t7, t8, t9⟩ := tail_spec g id kind loc core product kids
-      (pushKids g kids { r with members := insertNew r.members (id, g.id) })
+/-- the collection's own entry: gene list, section list, both caches marked dirty -/
+theorem own_eff (g : Gene) (s : Section) (a : AreaT) (r : Rec) :
+    Eff2 [(g, a, s)] [] r
+      { r with members := insertNew r.members (a.id, g.id),
+               sections := insertNew r.sections ((a.id, s), g.id),
+               clean := r.clean.filter (· != a.id),
+               slotClean := r.slotClean.filter (· != (a.id, s)) } := by
+  refine { len := rfl, genes := rfl, byName := rfl, byLoc := rfl, cdsCache := rfl, cdsCacheDirty := rfl,
+           regions := rfl, protos := rfl, cands := rfl, subs := rfl, slotVal := rfl, tupleVal := rfl, log := rfl,
+           members := ?_, sections := ?_, defs := ?_, regionOf := ?_, clean := ?_, slotClean := ?_,
+           childrenSame := ?_, sectionSame := ?_ }
+  · intro x; simp [mem_insertNew]
+  · intro x; simp [mem_insertNew]
+  · intro x; simp
+  · exact ⟨[], by simp⟩
+  · intro aid; simp only [List.mem_filter, bne_iff_ne, ne_eq, List.mem_singleton, forall_eq]
     constructor
-    · rw [t1]; exact hk.len
-    · rw [t2]; exact hk.genes
-    · rw [t3]; exact hk.regions
-    · rw [t4]; exact hk.protos
-    · rw [t5]; exact hk.cands
-    · rw [t6]; exact hk.subs
-    · intro x
-      rw [t7, hk.members]
-      simp only [mem_insertNew, downNodes, List.map_cons, List.mem_cons, exists_eq_or_imp, AreaT.id]
-      grind
-    · intro x
-      rw [t8, hk.defs]
-      simp only [downNodes, List.map_cons, List.mem_cons, exists_eq_or_imp, AreaT.id]
-      grind
-    · intro x
-      rw [t9, hk.regionOf]
-      simp only [downNodes, List.map_cons, List.mem_cons, exists_eq_or_imp, AreaT.id, AreaT.kind]
-      grind
-theorem pushKids_eff (g : Gene) : ∀ (ks : List AreaT) (r : Rec), Eff ((downKids g ks).map fun d => (g, d)) r (pushKids g ks r)
-  | [], r => by simp [downKids, pushKids]; exact Eff.refl r
-  | k :: ks, r => by
+    · rintro ⟨h1, h2⟩; exact ⟨h1, fun e => h2 e.symm⟩
+    · rintro ⟨h1, h2⟩; exact ⟨h1, fun e => h2 e.symm⟩
+  · intro x; simp only [List.mem_filter, bne_iff_ne, ne_eq, List.mem_singleton, forall_eq]
+    constructor
+    · rintro ⟨h1, h2⟩; exact ⟨h1, fun e => h2 e.symm⟩
+    · rintro ⟨h1, h2⟩; exact ⟨h1, fun e => h2 e.symm⟩
+  · intro aid h
+    have hne : a.id ≠ aid := by simpa using h
+    simp only [Rec.children]
+    rw [filter_insertNew_ne]
+    simpa using hne
+  · intro aid s' h
+    have hne : (a.id, s) ≠ (aid, s') := by simpa using h
+    simp only [Rec.section]
+    rw [filter_insertNew_ne]
+    simpa using hne
+
+mutual
+theorem pushDown_eff (g : Gene) : ∀ (given : Option Section) (a : AreaT) (r : Rec),
+    Eff ((downNodes g given a).map fun d => (g, d.1, d.2)) r (pushDown g given a r)
+  | given, .mk id kind loc core product kids, r => by
+    rw [pushDown_unfold]
+    have h1 := own_eff g ((chooseSection loc g given).getD .post) (.mk id kind loc core product kids) r
+    have hk := pushKids_eff g (chooseSection loc g given) kids
+      { r with members := insertNew r.members (id, g.id),
+               sections := insertNew r.sections ((id, (chooseSection loc g given).getD .post), g.id),
+               clean := r.clean.filter (· != id),
+               slotClean := r.slotClean.filter (· != (id, (chooseSection loc g given).getD .post)) }
+    have ht := tail_eff g ((chooseSection loc g given).getD .post) id kind loc core product kids
+      (pushKids g (chooseSection loc g given) kids
+        { r with members := insertNew r.members (id, g.id),
+                 sections := insertNew r.sections ((id, (chooseSection loc g given).getD .post), g.id),
+                 clean := r.clean.filter (· != id),
+                 slotClean := r.slotClean.filter (· != (id, (chooseSection loc g given).getD .post)) })
+    have := (Eff2.trans (Eff2.trans h1 hk) ht)
+    simp only [AreaT.id, List.append_nil, List.nil_append, List.singleton_append] at this
+    simp only [downNodes, List.map_cons]
+    exact this.congrQ (fun x => by simp only [List.mem_append, List.mem_cons, List.mem_singleton, List.not_mem_nil, or_false]; exact Or.comm)
+theorem pushKids_eff (g : Gene) : ∀ (sec : Option Section) (ks : List AreaT) (r : Rec),
+    Eff ((downKids g sec ks).map fun d => (g, d.1, d.2)) r (pushKids g sec ks r)
+  | sec, [], r => by simp [downKids, pushKids]; exact Eff.refl r
+  | sec, k :: ks, r => by
     simp only [downKids, pushKids, List.map_append]
     by_cases hc : containedBy g.loc k.loc = true
     · simp only [hc, if_true]
-      exact (pushDown_eff g k r).trans (pushKids_eff g ks _)
+      exact (pushDown_eff g sec k r).trans (pushKids_eff g sec ks _)
     · simp only [hc, if_false, Bool.false_eq_true, List.map_nil]
-      exact (Eff.refl r).trans (pushKids_eff g ks _)
+      exact (Eff.refl r).trans (pushKids_eff g sec ks _)
 end
 
 /-! ### linking one gene to a list of collections -/
 
 /-- every collection in `areas` that contains the gene, with the children the gene is passed down to -/
-def downAll (g : Gene) (areas : List AreaT) : List AreaT :=
-  areas.flatMap fun a => if containedBy g.loc a.loc then downNodes g a else []
+def downAll (g : Gene) (areas : List AreaT) : List (AreaT × Section) :=
+  areas.flatMap fun a => if containedBy g.loc a.loc then downNodes g none a else []
 
-theorem mem_downAll (g : Gene) (areas : List AreaT) (d : AreaT) :
-    d ∈ downAll g areas ↔ ∃ a ∈ areas, containedBy g.loc a.loc = true ∧ d ∈ downNodes g a := by
+theorem mem_downAll (g : Gene) (areas : List AreaT) (d : AreaT × Section) :
+    d ∈ downAll g areas ↔ ∃ a ∈ areas, containedBy g.loc a.loc = true ∧ d ∈ downNodes g none a := by
   simp only [downAll, List.mem_flatMap]
   constructor
   · rintro ⟨a, ha, hd⟩
@@ -163,17 +249,17 @@ theorem downAll_append (g : Gene) (l₁ l₂ : List AreaT) : downAll g (l₁ ++ 
   simp [downAll]
 
 theorem linkAll_eff (g : Gene) : ∀ (areas : List AreaT) (r : Rec),
-    Eff ((downAll g areas).map fun d => (g, d)) r (linkAll g areas r)
+    Eff ((downAll g areas).map fun d => (g, d.1, d.2)) r (linkAll g areas r)
   | [], r => by simp [downAll, linkAll]; exact Eff.refl r
   | a :: areas, r => by
     have ih := linkAll_eff g areas
     simp only [linkAll, List.foldl_cons] at ih ⊢
-    have e : downAll g (a :: areas) = (if containedBy g.loc a.loc then downNodes g a else []) ++ downAll g areas := by
+    have e : downAll g (a :: areas) = (if containedBy g.loc a.loc then downNodes g none a else []) ++ downAll g areas := by
       simp [downAll]
     rw [e, List.map_append]
     by_cases hc : containedBy g.loc a.loc = true
     · simp only [hc, if_true]
-      exact (pushDown_eff g a r).trans (ih _)
+      exact (pushDown_eff g none a r).trans (ih _)
     · simp only [hc, if_false, Bool.false_eq_true, List.map_nil]
       exact (Eff.refl r).trans (ih _)
 
@@ -181,7 +267,7 @@ theorem linkAll_eff (g : Gene) : ∀ (areas : List AreaT) (r : Rec),
 def registered (r : Rec) : List AreaT := r.regions ++ r.protos ++ r.cands ++ r.subs
 
 theorem linkCdsToParent_eff (r : Rec) (g : Gene) :
-    Eff ((downAll g (registered r)).map fun d => (g, d)) r (linkCdsToParent r g) := by
+    Eff ((downAll g (registered r)).map fun d => (g, d.1, d.2)) r (linkCdsToParent r g) := by
   simp only [linkCdsToParent]
   have h1 := linkAll_eff g r.regions r
   generalize linkAll g r.regions r = r1 at h1 ⊢
@@ -201,15 +287,15 @@ theorem linkCdsToParent_eff (r : Rec) (g : Gene) :
 /-- `for cds in found: area.add_cds(cds)` when everything found is contained: never raises -/
 theorem addAll_eff (a : AreaT) : ∀ (L : List Gene) (r : Rec), (∀ g ∈ L, containedBy g.loc a.loc = true) →
     ∃ r', L.foldlM (fun r g => areaAddCds r a g) r = .ok r' ∧
-      Eff (L.flatMap fun g => (downNodes g a).map fun d => (g, d)) r r'
+      Eff (L.flatMap fun g => (downNodes g none a).map fun d => (g, d.1, d.2)) r r'
   | [], r, _ => ⟨r, rfl, by simpa using Eff.refl r⟩
   | g :: L, r, h => by
     have hc := h g (by simp)
-    obtain ⟨r', h1, h2⟩ := addAll_eff a L (pushDown g a r) (fun x hx => h x (by simp [hx]))
+    obtain ⟨r', h1, h2⟩ := addAll_eff a L (pushDown g none a r) (fun x hx => h x (by simp [hx]))
     refine ⟨r', ?_, ?_⟩
     · simp only [List.foldlM_cons, areaAddCds, hc, if_true, bind, Except.bind, pure, Except.pure]
       exact h1
     · simp only [List.flatMap_cons]
-      exact (pushDown_eff g a r).trans h2
+      exact (pushDown_eff g none a r).trans h2
 
 end ASV.Lookup
